@@ -32,7 +32,9 @@ def menu(ds, sizes):
     m = [(["obs", "fcst"], 0, ALL, 0), (["obs"], 0, 3, 0), (["fcst"], 0, 3, 0), (["obs", "fcst"], 0, 3, 0),
          (["obs"], 0, ALL, 0), (["obs", "fcst"], k1, ALL, 0), (["obs", "fcst"], 0, 1, 0), (["obs"], k1, 2, 0),
          (["fcst", e], 0, ALL, 0), (["fcst"], k1, ALL, 0), (["obs", e], k1, 3, 0), (["fcst"], 0, 0, 0),
-         (["obs"], k1, 3, 0), (["obs"], k1, ALL, 0)]       # observation-only requests for two inputs with the same slice
+         (["obs"], k1, 3, 0), (["obs"], k1, ALL, 0),       # observation-only requests for two inputs with the same slice
+         (["obs", "fcst"], 0, 7, 0), (["obs", "fcst"], 0, 6, 0), (["obs", "fcst"], 0, 5, 0), (["obs", "fcst"], 0, 8, 0)]
+         # the first slice of several time-like axes (year, month, week, day ...): their values coincide at calendar boundaries
     if all("ens0" in i["fields"] and "ens1" in i["fields"] for i in ds["inputs"] + ([ds["cfg"]["clim"]] if "clim" in ds["cfg"] else [])):
         # ensemble members are fields of their own: two different members must never share a cache entry
         m = m[:8] + m[12:] + [(["ens0"], 0, 3, 0), (["ens1"], 0, 3, 0), (["ens1"], k1, ALL, 0), (["obs", "ens0"], 0, ALL, 0)]
@@ -194,7 +196,8 @@ def _explore(out, tier, seed, facts, replay):
             continue
         k1 = 1 if len(ds["inputs"]) > 1 else 0
         dm = [(["qu0.5"], 0, ALL, 0), (["qu0.25", "obs"], 0, 3, 0), (["th1.0"], 0, ALL, 0), (["ens0"], 0, ALL, 0), (["ens1"], 0, 3, 0),
-              (["ens0", "ens1"], k1, ALL, 0), (["qu0.9"], k1, ALL, 0), (["obs", "fcst"], 0, ALL, 0)]
+              (["ens0", "ens1"], k1, ALL, 0), (["qu0.9"], k1, ALL, 0), (["obs", "fcst"], 0, ALL, 0),
+              (["obs", "th1.0"], 0, ALL, 0), (["th1.0", "fcst"], k1, ALL, 0), (["th1.0"], 0, 3, 0)]       # whole arrays of several fields incl. a derived one (with a climatology: anomalies)
         dcases = [list(h) for h in itertools.product(dm, repeat=2)] + [[rng.choice(dm) for _ in range(rng.randint(3, 6))] for _ in range(20 if tier == "quick" else 150)]
         for h in dcases:
             res = impl_history(ds, h)
